@@ -12,7 +12,7 @@ import ast
 
 from .. import terms as T
 from ..terms import const
-from ..rules import P_, run, ret_paths
+from ..rules import P_, run, ret_paths, elem_of_comp, cond_paths
 from ..loader import AnalysisError, ClassInfo
 from .. import effects
 
@@ -264,6 +264,15 @@ def rule_site(ctx, E):
         for e in p.calls('put'):
             nput += 1
             recv = T.call_receiver(e.a)
+            eoc = elem_of_comp(recv)
+            guards = list(e.guards)
+            if eoc is not None:
+                recv = eoc[0]               # (the variables were listed first: [dataset[k] for k in ... if <has the dimension>])
+                for cnd in eoc[1]:
+                    for g_, truth_ in cond_paths(cnd):
+                        if truth_:
+                            guards.extend(g_)
+                            break
             base = recv[1] if recv[0] == 'sub' else None
             while base is not None and base[0] in ('mut', 'setitem'):
                 base = base[1]
@@ -272,7 +281,7 @@ def rule_site(ctx, E):
                 ok = False
                 continue
             k = recv[2]
-            has = [(a, pol) for a, pol in e.guards if a[0] == 'cmp' and a[1] == 'in' and a[3][0] == 'attr' and a[3][2] == 'dims']
+            has = [(a, pol) for a, pol in guards if a[0] == 'cmp' and a[1] == 'in' and a[3][0] == 'attr' and a[3][2] == 'dims']
             good = [1 for a, pol in has if pol is True and a[3][1][0] == 'sub' and a[3][1][2] == k and 'name' in T.show(a[2])]
             if not good:
                 ctx.violated('R4', fi, e.node, 'put(..., inplace=True) runs on a variable without the guard "the variable has the reindexed dimension" on the variable\'s own '
@@ -296,7 +305,7 @@ def rule_site(ctx, E):
         for e in p.events:
             if e.kind == 'store_sub' and e.loops and isinstance(e.c, tuple):
                 # (one store per case, or one store of either the rebuilt variable or the untouched one)
-                for alt in T.strip_phi(e.c):
+                for alt in T.value_alts(e.c):
                     while alt[0] in ('mut', 'setitem'):
                         alt = alt[1]
                     if alt[0] == 'call' and T.dotted(alt[1]) == 'DimArray' and alt[2]:
